@@ -1415,7 +1415,13 @@ func (g *gen) fileWith(p *pattern, frags []string, pkg string, imports []string)
 			if g.chance(pc) && parses("package p\nfunc _() {\n\tdefer "+fr+"\n}\n") {
 				ctxSel = 8 // a slot that holds a call only (*ast.CallExpr), not any expression
 			}
+			if ctxSel != 8 && g.chance(0.1) {
+				ctxSel = 9
+			}
 			switch ctxSel {
+			case 9:
+				// inside the body of a range loop (the syntax node with the most fields)
+				body += "for _, v := range xs {\n\t_ = v\n\tuse(" + fr + ")\n}\n"
 			case 8:
 				body += g.pick("defer ", "go ") + fr + "\n"
 			case 0:
